@@ -420,7 +420,7 @@ func dsRun(line string) (result, monitor string, nMsgs int, classes []string) {
 			alloc1 := dsAllocated()
 			if panicked != "" {
 				answers = append(answers, "PANIC")
-				note("handler panic (miekg/dns does not recover: process exit): " + panicked)
+				note("PANIC in the server message handler on name " + f[3] + " (miekg/dns does not recover: process exit): " + panicked)
 				return strings.Join(answers, ";") + "|", monitor, nMsgs, append(classes, "PANIC")
 			}
 			if d := alloc1 - alloc0; d > dsAllocLimit {
@@ -675,12 +675,37 @@ func (b *dsBuilder) addOracle(code byte, in []byte) {
 		return
 	}
 	b.oracle[key] = true
-	out, err := dsEncoder(code).Decode(append([]byte{}, in...))
-	if err != nil {
+	out, err, panicked := dsSafeDecode(code, in)
+	switch {
+	case panicked != "":
+		b.orTok = append(b.orTok, key+"=PANIC") // the model's decoder panics on this input too
+	case err != nil:
 		b.orTok = append(b.orTok, key+"=!")
-	} else {
+	default:
 		b.orTok = append(b.orTok, key+"="+hexs(out))
 	}
+}
+
+// dsSafeDecode / dsSafeEncode: the real codec under recover (the harness never calls a codec outside these two and
+// the component Exec functions, which run under recover as well)
+func dsSafeDecode(code byte, in []byte) (out []byte, err error, panicked string) {
+	defer func() {
+		if e := recover(); e != nil {
+			panicked = fmt.Sprint(e)
+		}
+	}()
+	out, err = dsEncoder(code).Decode(append([]byte{}, in...))
+	return
+}
+
+func dsSafeEncode(code byte, in []byte) (out []byte, panicked string) {
+	defer func() {
+		if e := recover(); e != nil {
+			panicked = fmt.Sprint(e)
+		}
+	}()
+	out = dsEncoder(code).Encode(append([]byte{}, in...))
+	return
 }
 
 // oracleFor records what the codecs say about the bodies the server may decode for this name
@@ -711,8 +736,17 @@ func (b *dsBuilder) msg(addr string, qt int, name []byte, hint byte) {
 // name of an encoded request, with the three cache-busting characters replaced by seeded ones
 func (b *dsBuilder) encode(req commands.Request, up byte) []byte {
 	ser := commands.Serializer{Domain: b.dom}
-	m, err := ser.EncodeDnsRequestWithParams(req, dnsmessage.TypeCNAME, dsEncoder(up))
-	if err != nil || len(m.Question) != 1 {
+	var m *dns.Msg
+	var err error
+	func() {
+		defer func() {
+			if e := recover(); e != nil {
+				err = fmt.Errorf("encoder panic: %v", e)
+			}
+		}()
+		m, err = ser.EncodeDnsRequestWithParams(req, dnsmessage.TypeCNAME, dsEncoder(up))
+	}()
+	if err != nil || m == nil || len(m.Question) != 1 {
 		return nil
 	}
 	n := []byte(m.Question[0].Name)
